@@ -4,7 +4,7 @@ from props import _pipeline
 from pyvc.checklib import Check
 from pyvc.engine import Engine
 
-META = _pipeline.meta('C19',  "Rejected files: seeded malformed variants of corpus files through the real parser and CLI (located message, exit status 1, no traceback, no hang); the crash sites of the unchanged tree are listed as known findings.")
+META = _pipeline.meta('C19',  "Rejected files: seeded malformed variants of corpus files through the real parser and CLI (located message, exit status 1, no traceback, no hang); the crash sites of the unchanged tree are listed as known findings. Configuration shapes: every accepted shape of the file_list / file_rules sections through the real CLI.")
 
 DEDUCTIVE = ['vsg.apply_rules.apply_rules', 'vsg.vhdlFile.utils.detect_subelement_until', 'vsg.vhdlFile.utils.classify_subelement_until', 'vsg.vhdlFile.utils.object_value_is', 'vsg.vhdlFile.utils.find_next_token', 'vsg.vhdlFile.vhdlFile.vhdlFile.update', 'vsg.vhdlFile.vhdlFile.remove_beginning_of_file_tokens', 'vsg.rules.token_case.token_case._fix_violation', 'vsg.rules.whitespace_between_tokens.Rule._fix_violation', 'vsg.rules.token_indent.token_indent._fix_violation', 'vsg.rule.Rule._filter_out_fix_only_violations', 'vsg.vhdlFile.vhdlFile.split_on_carriage_return', 'vsg.vhdlFile.vhdlFile.vhdlFile.get_lines']
 
@@ -41,4 +41,12 @@ def run():
     for path, seed, kind, why in cres:
         if why:
             c.findings.append(Finding("bounded", ("reject:" if kind == "crash" else "reject_cli:") + kind, "%s [%s]" % (why, os.path.relpath(path, corpus.REPO)), {"file": path, "scenario_seed": seed, "observed": why}, why))
+    # valid configuration shapes of the per-file sections through the real CLI
+    from bounded import cfgshapes
+
+    sres = corpus.pmap(cfgshapes.one, sorted(cfgshapes.SHAPES), chunksize=1)
+    c.bounded["configuration_shapes_cli"] = {"evaluations": len(sres), "distinct_nontrivial": len(sres), "rule": "real CLI on three accepted files under file_list / file_rules sections of every accepted shape (plain names, one-key and several-key mappings, entries without a rule section, globs): terminates, no traceback, exit status 0 or 1"}
+    for name, kind, why in sres:
+        if why:
+            c.findings.append(Finding("bounded", "config_shape:" + kind, why, {"shape": name, "configuration": cfgshapes.SHAPES[name], "observed": why, "how_to_rerun": "cd /verif && /venv/bin/python -c 'from bounded import cfgshapes; print(cfgshapes.one(%r))'" % name}, name))
     return c.finish({"explanation": META["text"]})
